@@ -22,6 +22,7 @@ Inputs == { [n \in { Names[i] : i \in 1..NOps } |->
 
 V(n) == [k |-> "var", name |-> n]
 SetT(op, names) == [k |-> "set", op |-> op, ops |-> [i \in DOMAIN names |-> V(names[i])]]
+AllOps == {"union", "intersect", "setdiff", "symdiff"}
 \* all orderings of 2..NOps distinct operand names
 Seqs(n) == { s \in [1..n -> DOMAIN Names] : (\A i \in 1..n : s[i] <= NOps) /\ (\A i, j \in 1..n : i # j => s[i] # s[j]) }
 NameSeqs(n) == { [i \in 1..n |-> Names[s[i]]] : s \in Seqs(n) }
@@ -29,6 +30,11 @@ Terms(e, d) ==
     IF d = 0
     THEN { SetT(op, ns) : op \in {"union", "intersect"}, ns \in UNION { NameSeqs(n) : n \in 2..NOps } }
          \cup { SetT(op, ns) : op \in {"setdiff", "symdiff"}, ns \in NameSeqs(2) }
+         \* a set operator nested directly inside a set operator (same or different), on either side
+         \cup (IF NOps >= 3
+               THEN { [k |-> "set", op |-> o1, ops |-> <<SetT(o2, <<"A", "B">>), V("C")>>] : o1 \in AllOps, o2 \in AllOps }
+                    \cup { [k |-> "set", op |-> o1, ops |-> <<V("A"), SetT(o2, <<"B", "C">>)>>] : o1 \in AllOps, o2 \in AllOps }
+               ELSE {})
     ELSE \* second statement: combine the first result with an input (nesting by chaining)
          { SetT(op, <<"R1", Names[i]>>) : op \in {"union", "intersect", "setdiff", "symdiff"}, i \in 1..NOps }
 
